@@ -95,6 +95,10 @@ RoundTo(neg, N, D, e, p, mode) ==
      ELSE IF IGt(E0, MaxExp) THEN ResW("inf", neg, Zero, IZero, IF neg THEN Below ELSE Above, "overflow")
      ELSE IF D = One /\ Len(N) - TrailingZeros(N) <= p
           THEN ResW("finite", neg, StripTZ(N), E0, Exact, "fits")          \* fits: stored unchanged
+     ELSE IF D # One /\ p > Len(N) + 4 * Len(D) + 1 /\ Mod(Pow10(4 * Len(D)), D) = Zero
+          \* D = 2^a 5^b and the precision holds the whole terminating expansion: exact, whatever p is
+          \* (this is what keeps precisions near MaxPrec computable: no p-digit quotient is ever built)
+          THEN ResW("finite", neg, StripTZ(Mul(N, Div(Pow10(4 * Len(D)), D))), E0, Exact, "fits")
      ELSE
        LET s  == p + 1 - t                       \* scale so that the quotient has exactly p+1 digits
            QR == IF s >= 0 THEN DivMod(Shl(N, s), D) ELSE DivMod(N, Shl(D, -s))
